@@ -7,8 +7,20 @@ FUNCS = ['solver.py:Solver.solve', 'solver.py:Solver._attempt_field', 'solver.py
          'solver.py:DependencyTracker.met_dependents (by its verified contract)', 'values.py:ValueStore.__setitem__', '__init__.py:solve']
 
 
+def helper_frames():
+    """A stored value stays what its line computes only if the helpers a line may call keep no state between calls: the
+    helper-purity frames of C05 belong to the fixed-point claim as well."""
+    from . import c05
+    out = []
+    for o in c05.helper_purity():
+        o.id = o.id.replace('C05/', 'C03/')
+        out.append(o)
+    return out
+
+
 def extra_tasks(tier, seed):
-    return []
+    from ..oblig import Task
+    return [Task('helpers', helper_frames)]
 
 
 def run(tier, seed, t0):
